@@ -186,7 +186,15 @@ def _one(ctx, g, corr):
         corr(lambda I: ["union", encode.enc_schema(a, I), encode.enc_schema(b, I)], lambda: a | b, ("union", a, b))
         # --- dict addition
         (d1, w1), (d2, w2) = g.dict_(2), g.dict_(2)
-        s = d1 + d2
+        if ctx.rnd.random() < .15:
+            d1, w1 = schema.dict, {}            # an operand without declared keys contributes none
+        elif ctx.rnd.random() < .15:
+            d2, w2 = schema.dict, {}
+        try:
+            s = d1 + d2
+        except Exception as e:  # noqa: BLE001
+            ctx.violation("d1 + d2 raised %s for two dict schemas" % type(e).__name__, d1=repr(d1), d2=repr(d2), exception=repr(e))
+            return
         ref = ref_merged(d1, d2)
         ctx.case(("add", repr(d1), repr(d2)), d1.props.get("keys") is not Nil and d2.props.get("keys") is not Nil)
         merged_w = {**w1, **w2} if isinstance(w1, dict) and isinstance(w2, dict) else w2
